@@ -157,13 +157,20 @@ def markdown_escape_word(word: str) -> str:
     return word
 
 
+# A paragraph that begins like a link reference definition (`[label]: and more text`).
+_md_def_label_pat = re.compile(r"\s*\[(?:[^\[\]\\]|\\.)+\]:")
+
+
 def markdown_first_line_is_rule(lines: list[str]) -> bool:
     """
     A paragraph may begin with a word like `---` (as in `--- and more`). If wrapping leaves
     it alone on the paragraph's first line, or with more of the same (`-- -`), the line would
-    become a thematic break (or a frontmatter delimiter).
+    become a thematic break (or a frontmatter delimiter). Likewise a paragraph that begins
+    with `[label]: word` becomes a link reference definition once a line ends after the word.
     """
-    return len(lines) > 1 and bool(_md_thematic_pat.match(lines[0]))
+    return len(lines) > 1 and bool(
+        _md_thematic_pat.match(lines[0]) or _md_def_label_pat.match(lines[0])
+    )
 
 
 def markdown_escape_first_word(text: str) -> str:
@@ -171,6 +178,8 @@ def markdown_escape_first_word(text: str) -> str:
     Escape the first word of a paragraph (see `markdown_first_line_is_rule()`). The caller
     wraps the result again, so that the escaped word is laid out with its real width.
     """
+    if _md_def_label_pat.match(text):
+        return text.replace("[", "\\[", 1)
     match = re.match(r"\s*(\S+)", text)
     if not match:
         return text
